@@ -95,8 +95,18 @@ def run_kani(ctx, unit, harness=(), flags=(), rustflags=None, jobs=16, harness_t
         hid = r['harness_id']
         checks = r.get('checks', [])
         failed = [c for c in checks if c.get('status') in ('Failure', 'Failed', 'FAILURE')]
-        covers = [c for c in checks if c.get('category') == 'cover']
+        covers_all = [c for c in checks if c.get('category') == 'cover']
+        # covers named MUST-BE-UNREACHABLE state that control never gets there (e.g. after an operation that
+        # has to panic): satisfied => violation; all other covers are vacuity guards and must be satisfied
+        must_unreach = [c for c in covers_all if 'MUST-BE-UNREACHABLE' in c.get('description', '')]
+        covers = [c for c in covers_all if c not in must_unreach]
         unsat_cov = [c for c in covers if c.get('status') not in ('Satisfied', 'SATISFIED')]
+        reached = [c for c in must_unreach if c.get('status') in ('Satisfied', 'SATISFIED')]
+        should_panic = bool((meta.get(hid, {}).get('attributes') or {}).get('should_panic'))
+        if should_panic:
+            # expected panics are not failures; only assertions carrying the marker text are property failures
+            failed = [c for c in failed if 'outside [MIN, MAX]' in c.get('description', '') or c.get('description', '').startswith('P:')]
+        failed = failed + reached
         undet = [c for c in checks if c.get('status') in ('Undetermined', 'UNDETERMINED')]
         unwind_fail = [c for c in failed if c.get('category') == 'unwind' or 'unwinding assertion' in c.get('description', '')]
         real_fail = [c for c in failed if c not in unwind_fail and not allow_failed(hid, c)]
